@@ -95,13 +95,25 @@ class Geo:
         return out
 
     # ---- real calls ----
+    def fresh(self, E):
+        """a NEW Ellipsoid object with the same defining numbers for every call: the property quantifies over arbitrary
+        ellipsoids, and user code builds them on the fly (short-lived objects, recycled ids)"""
+        self.keep = getattr(self, "keep", [])
+        e = self.gc.Ellipsoid(E.semimaj, E.inversef)
+        self.keep = (self.keep + [e])[-2:]
+        return e
+
     def direct(self, lat, lon, az, s, E):
         self.calls += 1
+        if self.calls % 3:
+            E = self.fresh(E)
         la, lo, a21 = self.gd.vincdir(lat, lon, az, s, E)
         return {"lat": E_(la), "lon": E_(lo), "az": E_(a21), "f": (la, lo, a21), "hex": ",".join(float(v).hex() for v in (la, lo, a21))}
 
     def inverse(self, lat1, lon1, lat2, lon2, E):
         self.calls += 1
+        if self.calls % 3:
+            E = self.fresh(E)
         s, a12, a21 = self.gd.vincinv(lat1, lon1, lat2, lon2, E)
         return {"s": E_(s), "a12": E_(a12), "a21": E_(a21), "f": (s, a12, a21)}
 
